@@ -171,6 +171,33 @@ def python_advance(ctx: Ctx, py: PyProgram) -> None:
                 writes.append((st, st.lineno, {unparse(v)}, form))
         check_timer(ctx, "py", g, SCHED, "TimerScheduler.advance", timer, fired, nxt, per, cycle, "self.enabled", writes, py_guard_text)
         n += len(fired) + len(writes)
+    # whether a timer is due is decided from the live fields only: the declared settings (enabled, periods) and the targets this
+    # function itself moves.  A test on any other attribute is a stored summary of them (an "earliest target" cache ..): the periods
+    # are plain public fields that the machine assigns directly, so no writer refreshes the summary and a timer switched on later
+    # never fires.
+    cls_ = next(c_ for c_ in ast.walk(py.module(SCHED).tree) if isinstance(c_, ast.ClassDef) and c_.name == "TimerScheduler")
+    declared = {st.target.id for st in cls_.body if isinstance(st, ast.AnnAssign) and isinstance(st.target, ast.Name)}
+    moved = {t.attr for st in ast.walk(fn) if isinstance(st, (ast.Assign, ast.AugAssign)) for t in (st.targets if isinstance(st, ast.Assign) else [st.target])
+             if isinstance(t, ast.Attribute) and isinstance(t.value, ast.Name) and t.value.id == "self"}
+    d_ = py_defs(fn)
+
+    def attrs_of(e: ast.AST, depth: int = 0) -> set[str]:
+        out = set()
+        for x in ast.walk(e):
+            if isinstance(x, ast.Attribute) and isinstance(x.value, ast.Name) and x.value.id == "self":
+                out.add(x.attr)
+            if isinstance(x, ast.Name) and x.id in d_ and depth < 4:
+                for v in d_[x.id]:
+                    if isinstance(v, ast.AST):
+                        out |= attrs_of(v, depth + 1)
+        return out
+    for t_ in [x for x in ast.walk(fn) if isinstance(x, (ast.If, ast.While))]:
+        n += 1
+        extra = sorted(a for a in attrs_of(t_.test) if a not in declared and a not in moved)
+        if extra:
+            ctx.violation("C13.1/live-fields", key_of(SCHED, "TimerScheduler.advance", f"due test reads {extra}"),
+                          f"TimerScheduler.advance tests `{unparse(t_.test)[:70]}`, which reads {['self.' + a for a in extra]}: neither a declared setting nor a target this function moves, i.e. a stored summary "
+                          "that assignments to the public period fields do not refresh - a timer enabled at run time is never found due", f"{SCHED}:{t_.lineno}")
     ctx.instance("C13.1-2/python-advance", "fired marks + next-target writes in TimerScheduler.advance (2 timers)", n, 4)
 
 
@@ -244,6 +271,30 @@ def isr_bits(ctx: Ctx, py: PyProgram, rs: RustProgram) -> None:
             n += 1
             if which is None or isr[which] != val:
                 ctx.violation("C13.3/isr-bit", key_of(fn.file, fn.qual, f"ISR |= {val:#x}"), f"ISR bit {val:#x} is set under guard `{last}`; ISRFlag says MTI={isr['MTI']:#x} STI={isr['STI']:#x}", f"{fn.file}:{a['ln']}")
+    # the byte written back is the ISR *as read from memory in this tick* with the fired bits OR-ed in: a copy of ISR kept in a field of
+    # the timer context (a mirror some hosts refresh and others do not) misses the firmware's own acknowledgements, so a bit the handler
+    # cleared is considered still set and never latched again
+    d = rs_defs(fn.body)
+    for v in sorted(isr_vars):
+        n += 1
+        seen, todo, mirror = set(), [v], None
+        while todo:
+            nm = todo.pop()
+            if nm in seen:
+                continue
+            seen.add(nm)
+            for e in d.get(nm, []):
+                if not isinstance(e, dict):
+                    continue
+                for x in walk(e):
+                    if x.get("k") == "field" and expr_text(x).startswith("self."):
+                        mirror = expr_text(x)
+                    if x.get("k") == "path" and x["p"] in d:
+                        todo.append(x["p"])
+        if mirror:
+            ctx.violation("C13.3/isr-from-memory", key_of(fn.file, fn.qual, "ISR write-back starts from a stored copy"),
+                          f"{fn.qual} builds the ISR byte it writes from `{mirror}` instead of the byte read from memory in this tick: once firmware clears a status bit in memory the copy still has it, "
+                          "so later boundaries are reported as fired without the status bit ever being set again", fn.file)
     # the ISR write targets ISR_OFFSET
     wr = [c for c in walk(fn.body) if rs_is_mcall(c, "write_internal_byte", "memory")]
     for c in wr:
